@@ -8,7 +8,7 @@ def prof(name, quick, thorough, **kw):
 L1_TRUST = ['L1 model (coq/theories/L1/Model.v): control skeleton hand-written, tied by translator facts and the correspondence replay']
 
 CORR_L2 = {'kind': 'l2', 'profiles': [prof('fut', (60, 5), (600, 10), extra=['--max-pool', '1']), prof('fut', (40, 5), (400, 10), extra=['--max-pool', '0']), prof('fut', (40, 5), (400, 10), extra=['--min-pool', '2']), prof('susp', (60, 5), (600, 10)), prof('progs:wake_sweep.progs', (0, 8), (0, 60)), prof('progs:fut_extra.progs', (0, 8), (0, 60))]}
-CORR_L1 = {'profiles': [prof('corpus', (0, 6), (0, 40)), prof('core', (40, 5), (600, 10)), prof('sync', (30, 5), (400, 10)), prof('try', (30, 5), (400, 10)), prof('pool', (40, 5), (400, 10)), prof('core', (60, 3), (600, 6), real=True), prof('sync', (40, 3), (400, 6), real=True), prof('pool', (40, 3), (400, 6), real=True)]}
+CORR_L1 = {'profiles': [prof('corpus', (0, 6), (0, 40)), prof('core', (40, 5), (600, 10)), prof('sync', (30, 5), (400, 10)), prof('try', (30, 5), (400, 10)), prof('pool', (40, 5), (400, 10))]}
 
 L2_TRUST = ['L2 model (coq/theories/L2/Model.v): ONE queue with futures, three runner contexts and in-flight wakes, hand-written; the pool abstracted as runners that may take a scheduled queue (hand-over justified by L1: L-quiet/C10 matching invariant); sync_background reduced to a blocking wait; tied by the generated waker/poll tables and facts and by the wake-position sweeps - no log replay for this layer yet']
 
